@@ -335,8 +335,17 @@ def subsequences(chain):
     return out
 
 
+_REPORTED_SHAPES = set()
+
+
 def report(rec, subject, chain, failing_rels, packed_rels, first_dev, first_detail):
     """minimise (data first, then the chain) and record one violation"""
+    for c in subsequences(chain) + [chain]:
+        if (subject, c) in _REPORTED_SHAPES:
+            # this worker has already minimised and reported a sub-chain of this chain on this subject: the longer chain
+            # fails at least for that reason; it is counted, not minimised again (minimisation costs dozens of runs)
+            rec.count("failing_chains_containing_a_reported_shape")
+            return
     cands = sorted(failing_rels, key=relation_rank)[:4] if failing_rels else sorted(packed_rels, key=relation_rank)[:3]
     found = None
     for r in cands:                                         # 1. the statement alone on one relation, unpacked
@@ -374,6 +383,7 @@ def report(rec, subject, chain, failing_rels, packed_rels, first_dev, first_deta
     inputclass = relation_class(rels[0]) if len(rels) == 1 else "packed-relations"
     if packed and len(rels) == 1:
         inputclass += "/with-extra-identifier"
+    _REPORTED_SHAPES.add((subject, shape))
     key = "C02:%s:%s:%s:%s" % (">".join(shape), subject, inputclass, dev)
     what = "%s on %s -> %s (found through chain %s)" % (
         script.strip().replace("\n", " "), "; ".join("%s=%s" % (d.name, d.rows) for d in dss), detail, chain_text(chain))
